@@ -53,7 +53,12 @@ CLAIM = dict(
     "linear-solver precision, distance == l1_dissipation(returned flux), aux outputs, pinned pressure, converged => criteria met (distance "
     "increments recomputed from the reported distances; Newton residual || rhs - J(x) x || and flux increment, Bregman mass residual "
     "recomputed from the iterates captured by pass-through wrappers of jacobian / l1_dissipation; only Bregman's aux/force increment is "
-    "read from the history the solver wrote) and no fault.",
+    "read from the history the solver wrote) and no fault. STOPPING RULE made binding by construction (stopping_rule_oracle; candidates "
+    "from a generator of its own): from a reference run with all tolerances 0, each of tol_residual / tol_increment / tol_distance is placed "
+    "between the value of its quantity in a pass k >= 3 and its minimum over the eligible passes before; Newton and both Bregman variants, "
+    "verbose off and on, must stop in exactly pass k with the reference history (converged-but-criteria-not-met / "
+    "criteria-met-but-not-stopped:<criterion> / tolerance-changes-iterates); a clause that no candidate makes binding, or no decreasing "
+    "cost before the stop, is reported as mark ORACLE-BLIND instead of passing.",
     note="The hypothesis hupd of newton_preserves_balance is discharged from the model (newton_update_satisfies_hupd, "
     "newton_model_preserves_balance, mass_row_same_in_every_iterate) and tied (iterate matrices = darcy_init outside the diagonal "
     "flux-flux block). The loop model also carries what the handler restores the DISTANCE from (re-bound at the top of every pass, or "
@@ -390,6 +395,8 @@ def build(d, cfg, num_iter=None):
         tol_residual=tols(cfg)[0], tol_increment=tols(cfg)[1], tol_distance=tols(cfg)[2],
         L=cfg.L,
     )
+    if cfg.verbose:
+        opts["verbose"] = True
     if cfg.solver in ("amg", "cg"):
         opts["linear_solver_options"] = {"rtol": 1e-10, "atol": 1e-10 if cfg.solver == "amg" else 0.0, "maxiter": 500}
     if cfg.method == "bregman_adaptive":
@@ -1194,6 +1201,100 @@ def model_selfchecks(ctx, codes):
     ctx.correspond("driver: generated program points / as-found witnesses", lines, expect)
 
 
+def stopping_rule_oracle(ctx, d):
+    """every clause of the stopping rule is made THE binding one, by construction instead of by luck of the sampled masses:
+    a reference run with all tolerances 0 (no criterion can be met: `x < 0`) yields the history of the three monitored
+    quantities; for each of them a tolerance is placed strictly between its value in a pass k >= 3 and its smallest value in
+    the eligible passes 2..k-1 (the two other tolerances are non-restrictive). The run with that tolerance must stop in exactly
+    pass k with converged = True and the history of the reference run up to there, with `verbose` off and on; it is judged by
+    the per-run oracle as well (converged => criteria met by the returned history). Candidates are drawn from a generator of
+    its own (never from the shared one: the masses decide whether the cost decreases or increases in the passes before the
+    stop, i.e. whether a signed comparison can be told from the documented absolute one). An oracle that could not make a clause
+    binding, or saw no decreasing cost before the stop, says so (mark) instead of passing silently."""
+    import random
+
+    rng = random.Random(f"C04-stopping-rule-{ctx.seed}-{ctx.tier}")
+    K = 9
+    big = float(np.finfo(float).max)
+    quantities = {
+        "newton": {"residual": lambda h, i: h["residual"][i] / h["residual"][0], "increment": lambda h, i: h["flux_increment"][i] / h["flux_increment"][0],
+                   "distance": lambda h, i: abs(h["distance"][i] - h["distance"][i - 1])},
+        "bregman": {"residual": lambda h, i: h["mass_conservation_residual"][i],
+                    "increment": lambda h, i: h["aux_force_increment"][i] / h["aux_force_increment"][0],
+                    "distance": lambda h, i: abs(h["distance"][i] - h["distance"][i - 1]) / h["distance"][i]},
+    }
+    layouts = [("dense", (4, 5)), ("compact", (3, 3, 2)), ("dense", (3, 4)), ("compact", (5, 3))]
+    seen = {}  # (class, criterion) -> runs in which it was binding; (class, "decreasing") -> ... with a decreasing cost before the stop
+    per = ctx.pick(2, 4)
+    for method in ("newton", "bregman", "bregman_adaptive"):
+        klass = "newton" if method == "newton" else "bregman"
+        for c in range(per):
+            mk, shape = layouts[c % len(layouts)]
+            base = dict(shape=list(shape), voxel=[2.0 ** rng.randint(-2, 0) for _ in shape], masses=mk, method=method, l1="RAVIART_THOMAS",
+                        mobility="CELL_BASED", formulation=["pressure", "full"][c % 2], solver="direct", aa=0, aa_restart=None, weighted=bool(c % 2),
+                        mseed=([1, 2][c] if c < 2 else rng.randint(0, 10 ** 6)), num_iter=K, L=(1e-2 if method == "newton" else [1.0, 0.5][c % 2]),
+                        fault_at=[], points=[])
+            ref_cfg = Config(dict(base, tol=0.0, tol_mode="all"))
+            ref = run_solver(d, ref_cfg, None)
+            ctx.cov["solver_runs"] += 1
+            label = f"stopping rule: reference run, all tolerances 0, {method} {shape} {mk} seed {base['mseed']}"
+            if isinstance(ref, Raised) or "info" not in ref:
+                ctx.fail(f"C04:{method}.__call__:raises({getattr(ref, 'cls', 'no-result')}):CELL_BASED:regular", f"solver raises {ref!r} ({label})",
+                         {"kind": "run", "cfg": dict(ref_cfg), "fault": None, "num_iter": K})
+                continue
+            check_run(ctx, d, ref_cfg, ref, None, K, label)  # nothing is < 0: converged here is a violation of the clause
+            h = ref["info"]["convergence_history"]
+            n = len(h.get("distance", []))
+            for crit, q in quantities[klass].items():
+                with np.errstate(all="ignore"):
+                    v = [float(q(h, i)) if i >= 1 or crit != "distance" else float("inf") for i in range(n)]
+                k = next((i for i in range(3, n) if np.isfinite(v[i]) and 0 < v[i] * 1.02 < min(v[2:i]) and np.isfinite(min(v[2:i]))), None)
+                if k is None:
+                    continue
+                tol = float(np.sqrt(v[k] * min(v[2:k])))
+                if not v[k] < tol < min(v[2:k]):
+                    continue
+                sd = [h["distance"][i] - h["distance"][i - 1] for i in range(2, k)]
+                for verbose in (False, True):
+                    cfg = Config(dict(base, tol=tol, tol_mode=crit, verbose=verbose))
+                    cap = run_solver(d, cfg, None)
+                    ctx.cov["solver_runs"] += 1
+                    rp = {"kind": "run", "cfg": dict(cfg), "fault": None, "num_iter": K}
+                    lab = f"stopping rule: tol_{crit} = {tol!r} binding in pass {k}, verbose={verbose}, {method} {shape} {mk} seed {base['mseed']}"
+                    ctx.count(("stop", method, crit, verbose, c), nontrivial=True)
+                    if isinstance(cap, Raised) or "info" not in cap:
+                        ctx.fail(f"C04:{method}.__call__:raises({getattr(cap, 'cls', 'no-result')}):stopping-rule", f"solver raises {cap!r} ({lab})", rp)
+                        continue
+                    conv, nit, _, n_done, ev = check_run(ctx, d, cfg, cap, None, K, lab)
+                    hh = cap["info"]["convergence_history"]
+                    m = min(n_done, k + 1)
+                    same = all(np.allclose(np.asarray(hh[key][:m], dtype=float), np.asarray(h[key][:m], dtype=float), rtol=1e-9, atol=0.0, equal_nan=True)
+                               for key in ("distance", "distance_increment") if key in hh and key in h)
+                    if not same:
+                        ctx.fail(f"C04:{method}._solve:tolerance-changes-iterates",
+                                 f"the passes before the stop differ from the same passes of the run with other tolerances ({lab})", rp)
+                        continue
+                    seen[(klass, crit)] = seen.get((klass, crit), 0) + 1
+                    if crit == "distance" and any(x < 0 and abs(x) > tol * (1 if klass == "newton" else abs(h["distance"][2 + j])) for j, x in enumerate(sd)):
+                        seen[(klass, "decreasing")] = seen.get((klass, "decreasing"), 0) + 1
+                    if crit == "distance" and any(x > 0 for x in sd):
+                        seen[(klass, "increasing")] = seen.get((klass, "increasing"), 0) + 1
+                    if conv and n_done < k + 1:
+                        ctx.fail(f"C04:{method}._solve:converged-but-criteria-not-met",
+                                 f"info['converged'] is True after pass {n_done - 1} although tol_{crit} is first met in pass {k} "
+                                 f"(value {v[n_done - 1]!r} >= tolerance {tol!r}; {lab})", rp)
+                    elif not conv or n_done != k + 1:
+                        ctx.fail(f"C04:{method}._solve:criteria-met-but-not-stopped:{crit}",
+                                 f"tol_{crit} (the only restrictive tolerance) is met in pass {k} (value {v[k]!r} < {tol!r}) but the solver "
+                                 f"reports converged={conv} after {n_done} passes ({lab})", rp)
+    ctx.cov["stopping_rule"] = {f"{a}/{b}": n for (a, b), n in sorted(seen.items())}
+    need = [(kl, cr) for kl in ("newton", "bregman") for cr in ("residual", "increment", "distance")] + [("newton", "decreasing"), ("bregman", "decreasing")]
+    blind = [f"{a}/{b}" for a, b in need if not seen.get((a, b))]
+    if blind and not ctx.failures:
+        ctx.mark("ORACLE-BLIND", {"oracle": "stopping rule", "not_exercised": blind,
+                                  "meaning": "no candidate made this clause of the stopping rule the binding one (or none had a decreasing cost before the stop)"})
+
+
 def run(ctx):
     import darsia as d
 
@@ -1215,6 +1316,7 @@ def run(ctx):
     for cfg in cfgs:
         explore(ctx, d, cfg, lines, impl)
     diffs = ctx.correspond("fault-injection: real solver vs loop model", lines, impl)
+    stopping_rule_oracle(ctx, d)
     ctx.cov["configs"] = len(cfgs)
     ctx.cov["exhaustive"] = False
     ctx.cov["rule"] = ("covering design over method x L1 mode x mobility mode x formulation/back-end x Anderson x weight x mass kind x shape "
